@@ -48,6 +48,9 @@ def panic {α} (p : Panic) : M α := fun s => (.panic p, s)
 /-! ### fixed-width integers -/
 def two63 : Int := 9223372036854775808
 def two64 : Int := 18446744073709551616
+/-- the values a Go `int` / `int64` / `Language` argument can have (64-bit platform) -/
+def isInt64 (x : Int) : Prop := -9223372036854775808 ≤ x ∧ x < 9223372036854775808
+instance (x : Int) : Decidable (isInt64 x) := by unfold isInt64; exact inferInstance
 /-- two's-complement wrap into `int`/`int64` -/
 def wrapI (x : Int) : Int := (x + two63) % two64 - two63
 /-- wrap into `uint` -/
